@@ -15,7 +15,7 @@ RULE = ('Hypothesis draws texts from an adversarial line alphabet (lines startin
         'removed, no final line ending) + verifier accept PGPy\'s signature on LF/CRLF texts; PGPy verifies reference-made messages and '
         'returns their text. Non-trivial: text has a dash-escaped line, trailing blanks, CRLF or non-ASCII; distinct by class vector x hash '
         'x signer count x direction.')
-RULE += ' The line alphabet includes characters Python treats as blanks / line boundaries but RFC 4880 7.1 does not (U+00A0, U+3000, FF, VT, NEL, FS, U+2028).'
+RULE += ' The line alphabet includes characters Python treats as blanks / line boundaries but RFC 4880 7.1 does not (U+00A0, U+3000, FF, VT, NEL, FS, U+2028). Several signers use differing hashes; the re-read message is co-signed with a further hash and exported again; foreign messages announce their hashes in one header, one header per hash, or with blanks after the commas.'
 ASSUMPTIONS = ['refpgp.armor implements RFC 4880 section 7 independently', 'lone-CR texts take part in the round-trip clause only (RFC 4880 does not '
                'define a lone CR as a line ending)', 'the cleartext travels in the transport\'s line-ending convention: text equality after reload is '
                'modulo CRLF/LF', 'non-ASCII armored text is handed to from_blob as UTF-8 bytes or as str',
